@@ -4,6 +4,7 @@ from __future__ import annotations
 import importlib
 import json
 import os
+import re
 import sys
 import time
 import traceback
@@ -44,6 +45,8 @@ def run_task(task: dict) -> dict:
     import torch
 
     torch.set_num_threads(1)
+    global ATTRIB_PID
+    ATTRIB_PID = task.get("pid")
     from . import contract as C
     from . import explore, shadow
     from . import expr as E
@@ -157,6 +160,7 @@ def run_task(task: dict) -> dict:
                 ob = C.Ob(f"defined[{len(K.obs)}]", "helper", f"divisor non-zero at {site}", E.ne(d, E.ZERO), hy, site)
                 K.obs.append(ob)
             for ob in K.obs:
+                ob.kind = attribute(ob.kind, ob.tag)
                 if ob.must_fail and (not run.on_witness or st.opaque_ops):
                     continue  # vacuity guards are evaluated on the witness path of each case (and need full semantics)
                 with run:
@@ -222,6 +226,7 @@ def run_task(task: dict) -> dict:
             res["samples"].append({"bounded_input": _jsonable({k: K.env[k] for k in list(K.env)[:12]})})
         for f in K.failures:
             f = dict(f)
+            f["kind"] = attribute(f.get("kind"), f.get("clause"))
             f["env"] = _jsonable(K.env)
             f["seed"] = seed * 100003 + tries
             res["bounded"]["failures"].append(_jsonable(f))
@@ -229,6 +234,20 @@ def run_task(task: dict) -> dict:
             break
     res["wall"] = time.time() - t_start
     return res
+
+
+FOREIGN_AS_HELPER = {"C15"}
+ATTRIB_PID = None
+
+
+def attribute(kind, text):
+    """C15 runs contracts of other properties for the frame obligations their calls generate; clauses that state another
+    property ("C08: ...") are not decided by the C15 check - they count as helper clauses there."""
+    if ATTRIB_PID in FOREIGN_AS_HELPER and kind == "property":
+        m = re.match(r"\s*(C\d\d)\b", text or "")
+        if not (m and m.group(1) == ATTRIB_PID):
+            return "helper"
+    return kind
 
 
 def _replay(c, case, C, ob, seed) -> dict:
@@ -242,6 +261,7 @@ def _replay(c, case, C, ob, seed) -> dict:
         c.run(case, K)
         base = ob.name.split("[")[0].split("#")[0]
         for f in K.failures:
+            f["kind"] = attribute(f.get("kind"), f.get("clause"))
             out["failures"].append(_jsonable(f))
             if f.get("kind") in ("property", "frame"):
                 out["confirmed"] = True
